@@ -51,6 +51,62 @@ pub fn make_corpus(seed: u64, n: usize, with_cut: bool) -> Vec<Value> {
     out.into_inner()
 }
 
+/// Programs in which a cut is executed while a not(...) or time(...) node is one of its ancestors
+/// (API-built: the text parser only accepts a single subgoal inside not/time). The reference solver
+/// does not model these, so the expected answer count is the native run's.
+pub fn gen_cut_under(s: &mut dyn Src) -> Program {
+    let nfacts = 1 + s.draw(3) as i64;
+    let mut clauses: Vec<Clause> = (1..=nfacts).map(|i| Clause { name: "item".into(), args: vec![Term::Int(i)], body: None }).collect();
+    clauses.push(Clause { name: "ok".into(), args: vec![Term::Int(1 + s.draw(3) as i64)], body: None });
+    let leaf = |s: &mut dyn Src| -> Goal {
+        match s.draw(6) {
+            0 => Goal::Call("item".into(), vec![Term::var("$Y")]),
+            1 => Goal::Call("ok".into(), vec![Term::var("$X")]),
+            2 => Goal::Compare(CmpOp::Gt, Term::var("$X"), Term::Int(s.draw(3) as i64)),
+            3 => Goal::Unify(Term::var("$Z"), Term::var("$X")),
+            4 => Goal::Fail,
+            _ => Goal::Call("item".into(), vec![Term::var("$X")]),
+        }
+    };
+    // a conjunction (or disjunction branch) that contains the cut at a generated position
+    let mut inner: Vec<Goal> = (0..s.draw(3)).map(|_| leaf(s)).collect();
+    let pos = s.draw(inner.len() as u32 + 1) as usize;
+    inner.insert(pos, Goal::Cut);
+    let mut g = if inner.len() == 1 { Goal::Cut } else { Goal::And(inner) };
+    if chance(s, 1, 4) { g = Goal::Or(vec![g, leaf(s)]); }
+    // one or two levels of not / time around it
+    let levels = 1 + s.draw(2);
+    for _ in 0..levels { g = if chance(s, 1, 2) { Goal::Not(Box::new(g)) } else { Goal::Time(Box::new(g)) }; }
+    let mut body = vec![Goal::Call("item".into(), vec![Term::var("$X")])];
+    if chance(s, 1, 2) { body.push(leaf(s)); }
+    body.push(g);
+    if chance(s, 1, 2) { body.push(leaf(s)); }
+    clauses.push(Clause { name: "t".into(), args: vec![Term::var("$X")], body: Some(Goal::And(body)) });
+    if chance(s, 1, 2) { clauses.push(Clause { name: "t".into(), args: vec![Term::Int(9)], body: None }); }
+    Program { clauses, qname: "t".into(), qargs: vec![Term::var("$Q")] }
+}
+
+/// Corpus entries of the class above: choice sequences plus the native answer count.
+pub fn make_cut_under_corpus(seed: u64, n: usize) -> Vec<Value> {
+    let out: RefCell<Vec<Value>> = RefCell::new(vec![]);
+    let config = Config { cases: (n * 20) as u32, failure_persistence: None, rng_seed: RngSeed::Fixed(splitmix(seed ^ 0xC24C)), ..Config::default() };
+    let mut runner = TestRunner::new(config);
+    let strat = vec(any::<u16>(), 8..=40);
+    let _ = runner.run(&strat, |v| {
+        let mut o = out.borrow_mut();
+        if o.len() >= n { return Ok(()); }
+        let mut src = VecSrc::new(&v);
+        let p = gen_cut_under(&mut src);
+        let native = match run_program(&p, 20, 1, 5_000_000) { Ok(x) => x, Err(_) => return Ok(()) };
+        let text = format!("{}", p);
+        if o.iter().any(|e: &Value| e["text"].as_str() == Some(&text)) { return Ok(()); }
+        o.push(json!({"choices": v, "cut": true, "special": "cut-under-not-time", "kind": "cut-under-not-time", "answers": native.answers.len(),
+                      "cut_executed": true, "text": text}));
+        Ok(())
+    });
+    out.into_inner()
+}
+
 /// Replays one corpus entry through the public API. Returns a description of what was executed.
 pub fn replay_entry(e: &Value) -> Result<String, String> {
     let choices: Vec<u16> = e["choices"].as_array().ok_or("choices")?.iter().map(|x| x.as_u64().unwrap_or(0) as u16).collect();
@@ -58,7 +114,7 @@ pub fn replay_entry(e: &Value) -> Result<String, String> {
     // regression entries carry no count: their answer count is whatever the current tree gives
     let expected_opt = e["answers"].as_u64().map(|x| x as usize);
     let kind = e["kind"].as_str().unwrap_or("");
-    let p = decode(&choices, with_cut);
+    let p = if e["special"].as_str() == Some("cut-under-not-time") { let mut src = VecSrc::new(&choices); gen_cut_under(&mut src) } else { decode(&choices, with_cut) };
     let run = run_program(&p, 20, 2, u64::MAX).map_err(|f| format!("{:?}", f))?;
     let expected = expected_opt.unwrap_or(run.answers.len());
     if run.answers.len() != expected { return Err(format!("answer count {} differs from the native run's {}", run.answers.len(), expected)); }
